@@ -287,3 +287,54 @@ func TestAnyPosition(t *testing.T) {
 	ev.Rapid(t, 700, 10000)
 	rapid.Check(t, func(rt *rapid.T) { run(rt, false) })
 }
+
+// A large commit window: thousands of entries are removed and brought back unchanged in one window (every node of the
+// committed state is re-created), committed, written, two collection passes - and the trie reopened from the root must
+// still resolve completely. 4300..4800 entries give well over 8192 saved nodes in that commit.
+func TestLargeRecreate(t *testing.T) {
+	ev.Rapid(t, 1, 6)
+	rapid.Check(t, func(rt *rapid.T) {
+		n := gen.Uniform(rt, 4300, 4800, "n")
+		db := memkv.New()
+		var m *wmkit.Machine
+		m = wmkit.New(db, func(f string, a ...any) { rt.Fatalf("%s (large window of %d entries)", fmt.Sprintf(f, a...), n) })
+		keys := make([][]byte, n)
+		for i := range keys {
+			k := make([]byte, 32)
+			x := uint64(i)*0x9e3779b97f4a7c15 + 12345
+			for j := range k {
+				x ^= x << 13
+				x ^= x >> 7
+				x ^= x << 17
+				k[j] = byte(x)
+			}
+			keys[i] = k
+			m.Update(k, []byte{byte(i), byte(i >> 8), 0x42})
+		}
+		m.Commit(gen.Pick(rt, []int{0, 1, 64}, "level0"))
+		m.GC()
+		es := wmkit.Entries(m.Model)
+		for _, e := range es {
+			m.Delete(e.Key)
+		}
+		for _, e := range es {
+			m.Rewrite(e)
+		}
+		before := db.LogLen()
+		m.Commit(gen.Pick(rt, []int{0, 1, 64}, "level1"))
+		m.GC()
+		m.GC()
+		w := refwmpt.WalkFrom(m.T.Root(), db.Getter())
+		if len(w.Missing) > 0 || len(w.Problems) > 0 || len(w.Entries) != n {
+			rt.Fatalf("after %d entries were removed and brought back in one window, committed and collected twice: the root resolves %d entries, %d records missing, problems %v", n, len(w.Entries), len(w.Missing), w.Problems)
+		}
+		re := wmkit.Reopened(db, m.T.Root(), m.T.Weight())
+		for _, blk := range []uint64{1, m.T.Weight() / 2, m.T.Weight()} {
+			if _, _, err := re.GetBlockProof(blk); err != nil {
+				rt.Fatalf("large window of %d entries: reopened trie: GetBlockProof(%d): %v", n, blk, err)
+			}
+		}
+		ev.Case(fmt.Sprintf("large-recreate/%d", n), true, "window-re-creating-thousands-of-nodes")
+		ev.Extra("storage_operations_of_the_large_commit", db.LogLen()-before)
+	})
+}
